@@ -15,6 +15,9 @@ use serde_json::json;
 use std::collections::{BTreeMap, BTreeSet};
 use std::panic::{catch_unwind, AssertUnwindSafe};
 
+#[path = "c16_script.rs"]
+mod script;
+
 // ---------------------------------------------------------------------------------------------
 // canonical printer of a `Command` (constructor + flattened fields; mirrors `Grammar.Cmd`)
 // ---------------------------------------------------------------------------------------------
@@ -1973,6 +1976,7 @@ pub fn run(a: &Args) {
         cx.check_frame(&f, "random");
         done += 1;
     }
+    script::scripts(&mut cx, &mut rng, (a.n / 40).max(150));
     source_diff(&mut cx);
     cx.out.extra.insert("commands_unknown_to_lua_translator".into(), json!(cx.lua_unknown));
     cx.out.extra.insert("commands_with_different_lua_error_text".into(), json!(cx.lua_errtext));
